@@ -586,7 +586,7 @@ func (s *aSuite) opRandom() {
 func init() { suites["ante"] = runAnte }
 
 func runAnte(seed uint64, nOps int, outPath string) map[string]int {
-	s := &aSuite{r: &Rng{s: seed*0x9e3779b97f4a7c15 + 19}, stat: map[string]int{}}
+	s := &aSuite{r: seedRng("ante", seed), stat: map[string]int{}}
 	s.t = NewTrace(outPath)
 	defer s.t.Close()
 	for i := 0; i < 3; i++ {
